@@ -138,6 +138,7 @@ type refDriver struct {
 	stage   string // the exported function being called (named in panic events)
 	events  int
 	seen    map[string]bool // strings already run (each string is run once per trace)
+	light   int             // level-1 strings run so far
 }
 
 func newRefDriver(w io.Writer) *refDriver {
@@ -199,7 +200,10 @@ func (d *refDriver) exec(in refEv) (out refEv) {
 		}
 		out["a_text"] = strconv.QuoteToASCII(fmt.Sprintf("%#v", r))
 		d.stage = "ociref.Reference.String"
-		out["str"] = refCodes(r.String())
+		str := r.String()
+		out["str"] = refCodes(str)
+		d.stage = "ociref.Parse"
+		out["back"] = refParseResult(ociref.Parse(str)) // the round trip Parse(String(parts))
 	case "route":
 		path := refFromCodes(in["path"])
 		out["a_text"] = "GET " + strconv.QuoteToASCII(path)
@@ -292,8 +296,9 @@ func refAny(xs []int) []any {
 // runString logs the scenario of one string: the ociref functions; the string as a path
 // element of GET requests served by ociserver; the string as an argument of the client.
 // level 1: three requests (manifests, blobs, tags/list) and one client call; level 2: five
-// requests and four client calls.  A panic event ends its scenario (a reset line follows),
-// so that the events after it are still validated.
+// requests and four client calls.  A scenario (reset line) is one string, or a group of 8
+// level-1 strings.  A panic event ends its scenario (a reset line follows), so that the
+// events after it are still validated.
 func (d *refDriver) runString(src string, s string, pred any, level int) {
 	if d.seen[s] {
 		return
@@ -312,7 +317,13 @@ func (d *refDriver) runString(src string, s string, pred any, level int) {
 			d.emit(reset)
 		}
 	}
-	d.emit(reset)
+	// level 1 (the bulk of short TLC-enumerated strings): one reset line per group of 8
+	if level >= 2 || d.light%8 == 0 {
+		d.emit(reset)
+	}
+	if level < 2 {
+		d.light++
+	}
 	step(in)
 	paths := []string{"/v2/foo/manifests/" + s, "/v2/foo/blobs/" + s, "/v2/" + s + "/tags/list"}
 	if level >= 2 {
@@ -432,6 +443,32 @@ func refCmd(args []string) error {
 
 	rnd := rand.New(rand.NewSource(*seed))
 	for i := 0; i < *n; i++ {
+		if i%5 == 4 { // random parts through the printer, then the printed string
+			parts := []string{refHostGen(rnd), refRepoGen(rnd), refTagGen(rnd), refDigestGen(rnd)}
+			for k := range parts {
+				if rnd.Intn(12) == 0 {
+					parts[k] = refMutate(rnd, parts[k])
+				} else if k >= 2 && rnd.Intn(3) == 0 {
+					parts[k] = ""
+				}
+			}
+			p := make([]any, 4)
+			for k := range parts {
+				p[k] = refAny(refCodes(parts[k]))
+			}
+			d.emit(refEv{"op": "reset", "src": "rand"})
+			ev := d.exec(refEv{"op": "print", "p": p})
+			d.emit(ev)
+			if str, ok := ev["str"].([]int); ok {
+				printed := make([]byte, len(str))
+				for i, x := range str {
+					printed[i] = byte(x)
+				}
+				d.runString("rand", string(printed), nil, *level)
+			}
+			total++
+			continue
+		}
 		d.runString("rand", refRandom(rnd), nil, *level)
 		total++
 	}
